@@ -133,7 +133,12 @@ class Parser:
             if v == "local":
                 self.p += 1
                 if self.accept("kw", "function"):
-                    self.fail("local functions are not supported")
+                    fname = self.expect("name")
+                    self.expect("op", "("); 
+                    if not self.accept("op", ")"):
+                        self.fail("local functions with parameters are not supported")
+                    b = self.block({"end"}); self.expect("kw", "end")
+                    return "(SLocalFun %s %s)" % (cstr(fname), clist(b))
                 names = [self.expect("name")]
                 while self.accept("op", ","):
                     names.append(self.expect("name"))
@@ -161,6 +166,21 @@ class Parser:
             if v == "for":
                 self.p += 1
                 x = self.expect("name")
+                if self.accept("op", ","):
+                    # for _, v in ipairs(t) do B end  ==>  do local T = t; for I = 1, #T do local v = T[I]; B end end
+                    vname = self.expect("name")
+                    self.expect("kw", "in")
+                    if self.expect("name") != "ipairs":
+                        self.fail("only ipairs() generic for loops are supported")
+                    self.expect("op", "("); te = self.expr(); self.expect("op", ")")
+                    self.expect("kw", "do")
+                    b = self.block({"end"}); self.expect("kw", "end")
+                    self.gensym = getattr(self, "gensym", 0) + 1
+                    tn, ix = cstr("__t%d" % self.gensym), cstr("__i%d" % self.gensym)
+                    body = ["(SLocal %s %s)" % (clist([cstr(x), cstr(vname)]),
+                                                  clist(["(EVar %s)" % ix, "(EIndex (EVar %s) (EVar %s))" % (tn, ix)]))] + b
+                    loop = "(SForNum %s (ENum 1) (EUn ULen (EVar %s)) (ENum 1) %s)" % (ix, tn, clist(body))
+                    return "(SIf %s [])" % clist(["(ETrue, %s)" % clist(["(SLocal %s %s)" % (clist([tn]), clist([te])), loop])])
                 if not self.accept("op", "="):
                     self.fail("only numeric for loops are supported")
                 e1 = self.expr(); self.expect("op", ","); e2 = self.expr()
@@ -191,8 +211,14 @@ class Parser:
         if k == "name":
             e, kind = self.suffixed()
             if self.accept("op", "="):
+                m = re.match(r'^\(EIndex \(EVar ("(?:[^"]|"")*")\) (.*)\)$', e) if kind == "index" else None
+                if m:
+                    rhs = self.expr()
+                    if self.accept("op", ","):
+                        self.fail("multiple assignment is not supported")
+                    return "(SAssignIndex %s %s %s)" % (m.group(1), m.group(2), rhs)
                 if kind != "var":
-                    self.fail("only assignment to a plain local variable is supported")
+                    self.fail("only assignment to a local variable or to an element of a local table is supported")
                 rhs = self.expr()
                 if self.accept("op", ","):
                     self.fail("multiple assignment is not supported")
